@@ -32,15 +32,13 @@ Fixpoint mgrs_above (n : node) (p : path) : nat :=
       (match find_child i (children n) with Some c => mgrs_above c rest | None => 0 end)
   end.
 
-(* some strict descendant of n carries a non-standard interface *)
-Definition subtree_has_user (n : node) : bool :=
-  existsb (fun e => match snd e with [] => false | _ => true end) (get_managed_objects n).
-
-Inductive dev25 := NestedManagers | SubtreeSilent.
+Inductive dev25 := NestedManagers.
 
 Definition not_km (k : kind) : bool := match k with KM => false | _ => true end.
-Definition is_root (p : path) : bool := match p with [] => true | _ => false end.
 
+(* The one class left after fix f5fe3276 (no node with children is deleted any more, so nothing
+   disappears from a listing silently): an effective registration or removal of a user interface at a
+   path that has two or more proper ancestors carrying an ObjectManager — only the nearest one emits. *)
 Definition flag25 (t : node) (o : op) : option dev25 :=
   match o with
   | At p k _ =>
@@ -49,17 +47,9 @@ Definition flag25 (t : node) (o : op) : option dev25 :=
       | _ => if not_km k && Nat.leb 2 (mgrs_above t p) then Some NestedManagers else None
       end
   | Rm p k =>
-      match get_child t p with
-      | None => None
-      | Some n =>
-          match find_iface (ik k) (ifaces n) with
-          | None => None
-          | Some _ =>
-              if not_km k && Nat.leb 2 (mgrs_above t p) then Some NestedManagers
-              else if is_empty (fst (remove_interface (ik k) n)) && negb (is_root p)
-                      && Nat.leb 1 (mgrs_above t p) && subtree_has_user n
-                   then Some SubtreeSilent else None
-          end
+      match lookup t p (ik k) with
+      | Ok _ => if not_km k && Nat.leb 2 (mgrs_above t p) then Some NestedManagers else None
+      | _ => None                                         (* absent: fails, nothing emitted *)
       end
   end.
 
